@@ -131,13 +131,19 @@ def no_raise_after_write(ctx, res: Result, fi: FuncInfo, rule="D-no-raise-after-
     any_bad = False
     for x, text, first in found:
         exc = None
+        skip = False
         for pref, (reason, pre) in exceptions.items():
             if pref in text:
                 why_not = pre(ctx, fi, x)
                 if why_not is None:
                     exc = reason
+                elif why_not.startswith("unrecognised:"):
+                    res.frozen(False, rule, f"{inst}:exception:{src(x)[:40]}", fi.site(x), fi.qualname, "", f"exception-table precondition could not be re-derived ({why_not})", construct=src(x)[:120])
+                    skip = True
                 else:
                     text = f"{text}; exception-table precondition no longer holds: {why_not}"
+        if skip:
+            continue
         if exc:
             res.ok(rule, f"{inst}:exception:{src(x)[:40]}", fi.site(x), fi.qualname, f"accepted by exception table: {exc}")
             continue
